@@ -117,6 +117,9 @@ End Analysis.
 Definition fn_id (name : String.string) : Z :=
   match filter (fun fn => String.eqb (snd fn) name) fn_names with (i, _) :: _ => i | [] => -1 end.
 
+Definition field_id (name : String.string) : Z :=
+  match filter (fun fn => String.eqb (snd fn) name) field_names with (i, _) :: _ => i | [] => -1 end.
+
 (* the table without the signal/panic path: no call of Vaxis.Close from inside the library
    (its only in-library callers are the kill-signal branch and the recover() handler of the
    input goroutine) and no [sigclose] role.  This is the program run with
@@ -540,3 +543,21 @@ Definition c10_sched_violations (l : list sched_case) : list Z :=
   bad_indices (fun c => sched_violation c
      || (sched_known c && negb (let '(_, _, _, acts, os, _, _) := c in shutdown_obs_ok acts os))) l.
 Definition c10_sched_known (l : list sched_case) : list Z := bad_indices sched_known l.
+
+(* second recorded finding: Close/Suspend entered with a full queue and four unprocessed
+   input sequences (the state of C10_close_full_queue_refuted) *)
+Definition stuckq_b (N : nat) (s : state) : bool :=
+  Nat.leb N (List.length (q s))
+  && match ip s with IPost (_ :: _) => true | _ => false end
+  && Nat.eqb (List.length (seqs s)) 2
+  && match pp s with PEmit (_ :: _) | PEof => true | _ => false end
+  && negb (closedch s)
+  && match mp s with MPostQuit | MSendClose _ | MWriteDA1 _ | MWait _ => true | _ => false end.
+
+Definition fullq_known (c : sched_case) : bool :=
+  let '(n, ans, scripts, acts, _, _, _) := c in
+  let '(_, s) := exec (Z.to_nat n) ans acts (None, init (script_of scripts)) in
+  stuckq_b (Z.to_nat n) s.
+
+Definition c10_fullq_violations (l : list sched_case) : list Z := bad_indices sched_violation l.
+Definition c10_fullq_known (l : list sched_case) : list Z := bad_indices fullq_known l.
